@@ -4,6 +4,8 @@ mod extract;
 mod c03;
 mod c04;
 mod c05;
+mod c08;
+mod consts;
 mod gad;
 mod c09;
 mod c14;
@@ -70,6 +72,8 @@ fn main() {
         "c03" => c03::main(rest),
         "c04" => c04::main(rest),
         "c05" => c05::main(rest),
+        "consts" => consts::main(rest),
+        "c08" => c08::main(rest),
         "c09" => c09::main(rest),
         "c14" => c14::main(rest),
         "c15" => c15::main(rest),
